@@ -161,6 +161,22 @@ def case_transform(ctx, op, dim=2, taper=False):
         z = ctx.var("z", 0.2, 3)
         new = mesh.expand(n=3, z=z)
         factor = z
+    elif op in ("revolve_phi_array_4", "revolve_phi_array_13"):
+        # the revolution angles given as an ARRAY (length other than the default n = 11): one layer of cells per angle interval,
+        # every cell index refers to an existing point, same mesh as with the scalar (phi, n) form
+        k = int(op.rsplit("_", 1)[1])
+        base = fem.Mesh(np.asarray(mesh.points) + np.array([0, 3]), mesh.cells, mesh.cell_type)
+        with ctx.concrete():
+            phis = np.linspace(0, 60, k)
+        new = base.revolve(phi=phis)
+        ref = base.revolve(n=k, phi=60)
+        ok_counts = new.ncells == (k - 1) * mesh.ncells and new.npoints == k * mesh.npoints and int(np.asarray(new.cells).max()) < new.npoints
+        ctx.check_concrete("one_cell_layer_per_angle_interval", bool(ok_counts), "cells %d points %d max index %d" % (new.ncells, new.npoints, int(np.asarray(new.cells).max())))
+        if not ok_counts:
+            return
+        ctx.check_concrete("same_connectivity_as_scalar_form", bool(np.array_equal(new.cells, ref.cells)))
+        ctx.equal("same_points_as_scalar_form", np.asarray(new.points), np.asarray(ref.points), tol=1e-12, box={"atom:root": (0.4, 3)})
+        return  # (orientation / measure of revolved meshes are checked with the scalar form)
     elif op in ("revolve", "revolve_axis1", "revolve_axis0_negative_side"):
         # the section lies entirely on one side of the axis of revolution (radius 2..4)
         shift, axis = {"revolve": ([0, 3], 0), "revolve_axis1": ([3, 0], 1), "revolve_axis0_negative_side": ([0, -4], 0)}[op]
@@ -511,6 +527,20 @@ def case_circle(ctx, n, sections):
     ctx.check_concrete("cell_count", m0.ncells == 3 * (n - 1) ** 2 * len(sections), "cells %d" % m0.ncells)
 
 
+def case_circle_scale(ctx, radius, center):
+    """Circle(radius, centerpoint) is the scaled and moved unit circle for VERY large and VERY small radii too (the merge tolerance
+    of the generator belongs to the unit circle): same connectivity, points = centre + radius * unit points (relative 1e-9)"""
+    with ctx.concrete():
+        unit = fem.Circle(n=3)
+        big = fem.Circle(radius=radius, centerpoint=list(center), n=3)
+        same = big.npoints == unit.npoints and big.ncells == unit.ncells and bool(np.array_equal(big.cells, unit.cells))
+        dev = float(np.abs((big.points - np.array(center)) / radius - unit.points).max()) if same else float("inf")
+    ctx.check_concrete("same_points_and_cells_as_the_unit_circle", same, "points %d / %d, cells %d / %d" % (big.npoints, unit.npoints, big.ncells, unit.ncells))
+    ctx.check_concrete("points_are_centre_plus_radius_times_unit_points", dev < 1e-9, "max deviation %.3g" % dev)
+    s = ctx.var("s", 0.5, 2)
+    ctx.equal("solver_content", s * 1, s)
+
+
 def case_merge(ctx, decimals):
     """merge_duplicate_points itself on concrete data (np.unique(axis=0) needs numeric arrays): nearly coincident interface points
     (off by 1e-3 of the rounding step) for every kind of `decimals`: None (exact duplicates only), 0, positive, negative"""
@@ -555,7 +585,7 @@ def cases(tier):
         out.append(("transform", case_transform, {"op": op, "dim": 3, "max_paths": 16}))
     for op in ("triangulate", "triangulate0"):
         out.append(("transform", case_transform, {"op": op, "dim": 3, "taper": True, "max_paths": 16}))
-    for op in ("revolve", "revolve_axis1", "revolve_axis0_negative_side"):
+    for op in ("revolve", "revolve_axis1", "revolve_axis0_negative_side", "revolve_phi_array_4", "revolve_phi_array_13"):
         out.append(("transform", case_transform, {"op": op, "dim": 2, "max_paths": 16}))
     rigid = ["rotate", "translate", "mirror_axis", "mirror_normal"]
     if tier == "quick":
@@ -574,6 +604,8 @@ def cases(tier):
     out.append(("circle", case_circle, {"n": 2, "sections": [0, 90, 180, 270]}))
     out.append(("circle", case_circle, {"n": 3, "sections": [0, 90, 180, 270]}))
     out.append(("circle", case_circle, {"n": 2, "sections": [0, 90]}))
+    for rad, cen in ((1e-8, (0.0, 0.0)), (1e6, (0.0, 0.0)), (2.5, (1e3, -1e3)), (1e-3, (0.5, 0.25))):
+        out.append(("circle_scale", case_circle_scale, {"radius": rad, "center": list(cen)}))
     if tier == "thorough":
         out.append(("circle", case_circle, {"n": 4, "sections": [0, 90, 180, 270]}))
         out.append(("circle", case_circle, {"n": 3, "sections": [90, 180, 270]}))
